@@ -13,6 +13,7 @@ import (
 	"time"
 
 	"github.com/fatih/color"
+	"github.com/open-policy-agent/opa/v1/ast"
 	"github.com/spf13/cobra"
 	"gopkg.in/yaml.v3"
 
@@ -279,12 +280,30 @@ func fix(args []string, params *fixCommandParams) error {
 	f.RegisterFixes(fixes.NewDefaultFixes()...)
 
 	if userConfigFile != nil {
-		versionsMap, err := config.AllRegoVersions(filepath.Dir(userConfigFile.Name()), &userConfig)
+		// versioned directories are relative to the project root, which is the
+		// parent of the .regal directory (or the directory of a .regal.yaml file)
+		projectRoot := filepath.Dir(userConfigFile.Name())
+		if regalDir != nil {
+			projectRoot = filepath.Dir(regalDir.Name())
+		}
+
+		if abs, err := filepath.Abs(projectRoot); err == nil {
+			projectRoot = abs
+		}
+
+		versionsMap, err := config.AllRegoVersions(projectRoot, &userConfig)
 		if err != nil {
 			return fmt.Errorf("failed to get all Rego versions: %w", err)
 		}
 
-		f.SetRegoVersionsMap(versionsMap)
+		// files are handed to the fixer by absolute path (see below), so the
+		// versioned directories must be absolute too in order to match them
+		absVersionsMap := make(map[string]ast.RegoVersion, len(versionsMap))
+		for dir, version := range versionsMap {
+			absVersionsMap[filepath.Join(projectRoot, dir)] = version
+		}
+
+		f.SetRegoVersionsMap(absVersionsMap)
 	}
 
 	if !slices.Contains([]string{"error", "rename"}, params.conflictMode) {
